@@ -149,9 +149,16 @@ func runSolver(ctx context.Context, sd solverDef, script string, ms int, cfg *So
 		}
 	}
 	args := sd.args(ms)
-	cctx, cancel := context.WithTimeout(ctx, time.Duration(ms)*time.Millisecond)
+	// The limit is on the solver's CPU time (ulimit -t), so that a loaded machine does not turn
+	// proofs into timeouts; the wall-clock cap is only a backstop (8x).
+	cpuSec := (ms + 999) / 1000
+	if cpuSec < 1 {
+		cpuSec = 1
+	}
+	cctx, cancel := context.WithTimeout(ctx, time.Duration(8*cpuSec)*time.Second)
 	defer cancel()
-	cmd := exec.CommandContext(cctx, args[0], args[1:]...)
+	shArgs := append([]string{"-c", fmt.Sprintf("ulimit -t %d; exec \"$0\" \"$@\"", cpuSec)}, args...)
+	cmd := exec.CommandContext(cctx, "sh", shArgs...)
 	cmd.Stdin = strings.NewReader(text)
 	var buf bytes.Buffer
 	cmd.Stdout = &buf
@@ -167,8 +174,8 @@ func runSolver(ctx context.Context, sd solverDef, script string, ms int, cfg *So
 	case "unknown", "timeout":
 		res = "unknown"
 	default:
-		if cctx.Err() != nil {
-			res = "unknown"
+		if cctx.Err() != nil || first == "" || strings.Contains(out, "CPU time limit") || strings.Contains(out, "Killed") {
+			res = "unknown" // killed by the CPU-time limit or the wall-clock backstop
 		} else {
 			res = "error"
 		}
@@ -265,6 +272,17 @@ func discharge(u *Unit, o *Oblig, script string, sliced string, cfg *SolverCfg) 
 		}
 	}
 	cancel()
+	if final.res == "unknown" {
+		// last chance, sequentially and with twice the budget (a race of four solvers on a busy
+		// machine can starve all of them)
+		for _, sd := range solvers[:2] {
+			r, ot, _ := runSolver(ctx, sd, script, 2*cfg.FullMs, cfg, false)
+			if r == "unsat" || r == "sat" {
+				final = ans{r, ot, sd.name + "/retry"}
+				break
+			}
+		}
+	}
 	o.Result, o.Solver = final.res, final.solver
 	if final.res == "sat" {
 		// fetch a model from z3-new (or whoever said sat)
